@@ -239,6 +239,7 @@ func runC04(w *World, r *Report) {
 	r.Rule("rlayout", "every specified field is read from its specified offset, width and byte order into the mapped Go field", 250)
 	r.Rule("prealloc", "decoders that rely on preallocated receiver slices only ever get receivers built by the constructor", 5)
 	r.Rule("retain", "elements decoded in list loops are stored into the receiver", 8)
+	r.Rule("fresh", "a value decoded into inside a list loop is new in each iteration (or fully overwritten by the child decoder)", 10)
 	codes, err := loadCodes()
 	if err != nil {
 		r.Fail(VUnmapped, "dispatch", "spec/codes.json", "", "-", err.Error())
@@ -570,6 +571,7 @@ func runC04(w *World, r *Report) {
 		}
 		if dfi := w.FuncOf(k.Unmarshal); dfi != nil {
 			retainRule(w, r, dfi)
+			freshRule(w, r, dfi)
 		}
 	}
 }
